@@ -6,6 +6,8 @@ import HappyModel.C14.Driver
 import HappyProofs.C14.BTreeMain
 import HappyProofs.C14.TxnMain
 import HappyProofs.C14.TxnLsm
+import HappyProofs.C14.StoreTrace
+import HappyProofs.C14.TxnTrace
 /-!
 # C14 — property theorems (LSM tree as a map)
 
